@@ -24,43 +24,66 @@ type seedResult struct {
 	msg  string
 }
 
+type seedExpect struct {
+	Property string `json:"property"`
+	Rule     string `json:"rule"`
+	Key      string `json:"key"`
+}
+
 type seedSpec struct {
-	path   string
+	path   string // patch file
+	name   string
 	prop   string
-	expect []struct{ rule, key string }
+	expect []seedExpect
 	files  []string
 }
 
-func parseSeed(path string) (*seedSpec, error) {
-	f, err := os.Open(path)
+// parseSeed reads <dir>/patch.diff and <dir>/meta.json ({"property":…, "expect":[{rule,key[,property]}]}).
+func parseSeed(dir string) (*seedSpec, error) {
+	s := &seedSpec{path: filepath.Join(dir, "patch.diff"), name: filepath.Base(filepath.Dir(dir)) + "/" + filepath.Base(dir)}
+	data, err := os.ReadFile(filepath.Join(dir, "meta.json"))
+	if err != nil {
+		return nil, err
+	}
+	var meta struct {
+		Property string       `json:"property"`
+		Expect   []seedExpect `json:"expect"`
+	}
+	if err := json.Unmarshal(data, &meta); err != nil {
+		return nil, err
+	}
+	s.prop = meta.Property
+	for _, e := range meta.Expect {
+		if e.Property == "" {
+			e.Property = meta.Property
+		}
+		s.expect = append(s.expect, e)
+	}
+	f, err := os.Open(s.path)
 	if err != nil {
 		return nil, err
 	}
 	defer f.Close()
-	s := &seedSpec{path: path, prop: filepath.Base(filepath.Dir(path))}
 	sc := bufio.NewScanner(f)
 	sc.Buffer(make([]byte, 1<<20), 1<<20)
 	for sc.Scan() {
 		l := sc.Text()
-		if strings.HasPrefix(l, "# expect:") {
-			var rule, key string
-			rest := strings.TrimSpace(strings.TrimPrefix(l, "# expect:"))
-			if i := strings.Index(rest, " key="); i >= 0 {
-				rule = strings.TrimPrefix(strings.TrimSpace(rest[:i]), "rule=")
-				key = strings.TrimSpace(rest[i+5:])
-			}
-			s.expect = append(s.expect, struct{ rule, key string }{rule, key})
-		}
 		if strings.HasPrefix(l, "+++ ") {
 			p := strings.Fields(l)[1]
-			p = strings.TrimPrefix(p, "b/")
-			s.files = append(s.files, p)
+			s.files = append(s.files, strings.TrimPrefix(p, "b/"))
 		}
 	}
-	if len(s.expect) == 0 {
-		return nil, fmt.Errorf("%s: no '# expect: rule=R key=K' header", path)
-	}
 	return s, nil
+}
+
+func (s *seedSpec) expectsFor(prop string) []seedExpect {
+	var out []seedExpect
+	for _, e := range s.expect {
+		if e.Property == prop {
+			out = append(out, e)
+		}
+	}
+	return out
 }
 
 // overlayFor applies the patch to copies of the touched files and returns the
@@ -71,6 +94,11 @@ func overlayFor(repo string, s *seedSpec) (map[string][]byte, error) {
 		return nil, err
 	}
 	defer os.RemoveAll(tmp)
+	for _, f := range s.files {
+		if !strings.HasSuffix(f, ".go") {
+			return nil, fmt.Errorf("touches %s: only Go sources can be overlaid in memory", f)
+		}
+	}
 	for _, f := range s.files {
 		src, err := os.ReadFile(filepath.Join(repo, f))
 		if err != nil {
@@ -99,11 +127,24 @@ func overlayFor(repo string, s *seedSpec) (map[string][]byte, error) {
 	return ov, nil
 }
 
+// listSeeds returns the seed directories (seeded/* from independent agents, seeds/* reverted fixes)
+// that expect a report for one of the properties.
 func listSeeds(props []string) []string {
 	var out []string
-	for _, p := range props {
-		m, _ := filepath.Glob(filepath.Join(verifDir, "seeds", p, "*.patch"))
-		out = append(out, m...)
+	for _, base := range []string{"seeded", "seeds"} {
+		dirs, _ := filepath.Glob(filepath.Join(verifDir, base, "*"))
+		for _, d := range dirs {
+			s, err := parseSeed(d)
+			if err != nil {
+				continue
+			}
+			for _, p := range props {
+				if len(s.expectsFor(p)) > 0 {
+					out = append(out, d)
+					break
+				}
+			}
+		}
 	}
 	sort.Strings(out)
 	return out
@@ -130,10 +171,14 @@ func seedChild(repo, patch string) int {
 		return 0
 	}
 	c.Tier = "quick"
-	res := runRules(c, map[string]bool{s.prop: true})
+	want := map[string]bool{}
+	for _, e := range s.expect {
+		want[e.Property] = true
+	}
+	res := runRules(c, want)
 	var bad []*Ob
 	for _, o := range res.obs {
-		if o.v != Pass && has(o.Props, s.prop) {
+		if o.v != Pass {
 			bad = append(bad, o)
 		}
 	}
@@ -142,17 +187,16 @@ func seedChild(repo, patch string) int {
 	return 0
 }
 
-func replayOne(repo, patch string) seedResult {
-	name := filepath.Base(filepath.Dir(patch)) + "/" + filepath.Base(patch)
-	s, err := parseSeed(patch)
+func replayOne(repo, dir string) (*seedSpec, []*Ob, string) {
+	s, err := parseSeed(dir)
 	if err != nil {
-		return seedResult{name, false, err.Error()}
+		return nil, nil, err.Error()
 	}
 	exe, _ := os.Executable()
-	cmd := exec.Command(exe, "seedchild", patch, "--repo", repo, "--verif", verifDir)
+	cmd := exec.Command(exe, "seedchild", dir, "--repo", repo, "--verif", verifDir)
 	out, err := cmd.Output()
 	if err != nil {
-		return seedResult{name, false, fmt.Sprintf("sub-process failed: %v", err)}
+		return s, nil, fmt.Sprintf("sub-process failed: %v", err)
 	}
 	var r struct {
 		Stale string `json:"stale"`
@@ -161,56 +205,75 @@ func replayOne(repo, patch string) seedResult {
 	}
 	lines := strings.Split(strings.TrimSpace(string(out)), "\n")
 	if err := json.Unmarshal([]byte(lines[len(lines)-1]), &r); err != nil {
-		return seedResult{name, false, "bad sub-process output"}
+		return s, nil, "bad sub-process output"
 	}
 	if r.Stale != "" {
-		return seedResult{name, true, "STALE (skipped): " + r.Stale}
+		return s, nil, "STALE (skipped): " + r.Stale
 	}
 	if r.Error != "" {
-		return seedResult{name, false, r.Error}
+		return s, nil, r.Error
 	}
-	for _, e := range s.expect {
-		found := false
-		for _, o := range r.Obs {
-			if o.Rule == e.rule && o.Key == e.key && o.Verdict == "VIOLATION" {
-				found = true
-			}
-		}
-		if !found {
-			var got []string
-			for _, o := range r.Obs {
-				got = append(got, o.Rule+" "+o.Key+" ["+o.Verdict+"]")
-			}
-			return seedResult{name, false, fmt.Sprintf("MISSED: expected rule=%s key=%s; reported: %v", e.rule, e.key, got)}
-		}
-	}
-	return seedResult{name, true, "detected"}
+	return s, r.Obs, ""
 }
 
 // replaySeedsFor replays the seeds of the given properties, a few in
 // parallel (each sub-process loads the program: ~1 GB).
 func replaySeedsFor(repo string, props []string, verbose bool) map[string][]seedResult {
 	seeds := listSeeds(props)
-	res := make([]seedResult, len(seeds))
+	type rr struct {
+		s   *seedSpec
+		obs []*Ob
+		msg string
+	}
+	res := make([]rr, len(seeds))
 	sem := make(chan struct{}, 6)
 	done := make(chan int)
-	for i, p := range seeds {
-		go func(i int, p string) {
+	for i, d := range seeds {
+		go func(i int, d string) {
 			sem <- struct{}{}
-			res[i] = replayOne(repo, p)
+			s, obs, msg := replayOne(repo, d)
+			res[i] = rr{s, obs, msg}
 			<-sem
 			done <- i
-		}(i, p)
+		}(i, d)
 	}
 	for range seeds {
 		<-done
 	}
 	out := map[string][]seedResult{}
-	for i, p := range seeds {
-		prop := filepath.Base(filepath.Dir(p))
-		out[prop] = append(out[prop], res[i])
-		if verbose || !res[i].ok {
-			fmt.Printf("  seed %s: %s\n", res[i].name, res[i].msg)
+	for i, d := range seeds {
+		r := res[i]
+		name := filepath.Base(filepath.Dir(d)) + "/" + filepath.Base(d)
+		for _, p := range props {
+			if r.s == nil {
+				continue
+			}
+			exp := r.s.expectsFor(p)
+			if len(exp) == 0 {
+				continue
+			}
+			sr := seedResult{name: name, ok: true, msg: "detected"}
+			if r.msg != "" {
+				sr.ok = strings.HasPrefix(r.msg, "STALE")
+				sr.msg = r.msg
+			} else {
+				for _, e := range exp {
+					found := false
+					for _, o := range r.obs {
+						if o.Rule == e.Rule && o.Key == e.Key && o.Verdict != "pass" && has(o.Props, p) {
+							found = true
+						}
+					}
+					if !found {
+						sr.ok = false
+						sr.msg = fmt.Sprintf("MISSED: expected rule=%s key=%s", e.Rule, e.Key)
+					}
+				}
+			}
+			out[p] = append(out[p], sr)
+			if verbose || !sr.ok {
+				fmt.Printf("  seed %s [%s]: %s\n", name, p, sr.msg)
+			}
 		}
 	}
 	return out
